@@ -314,6 +314,14 @@ Fixpoint forwarding_recipients (to_send : list string) (cols : list (string * js
       end
   end.
 
+(* fix F18: each owned IRI once, in lexical order *)
+Fixpoint insert_sorted (x : string) (l : list string) : list string :=
+  match l with
+  | [] => [x]
+  | y :: r => if String.leb x y then x :: l else y :: insert_sorted x r
+  end.
+Definition sort_strings (l : list string) : list string := fold_right insert_sorted [] l.
+
 Definition inbox_forwarding (inbox : string) (a : json) : prog (res unit) :=
   let id := id_str a in
   _ <-? lock id ;;
@@ -328,7 +336,7 @@ Definition inbox_forwarding (inbox : string) (a : json) : prog (res unit) :=
       cc <-? lift (ids_of "cc" a) ;;
       au <-? lift (ids_of "audience" a) ;;
       mine <-? my_iris (to ++ cc ++ au) ;;
-      loaded <- load_collections mine [] [] ;;
+      loaded <- load_collections (sort_strings (dedupe_iris mine [])) [] [] ;;
       let '(rcols, deferred) := loaded in
       rr <- (cols <-? lift rcols ;;
              match cols with
